@@ -187,8 +187,9 @@ def gen_program(rng, pkg, n=None, p_explicit=0.15, p_hidden=0.12, min_memento=2,
     # variables
     vars_ = []
     for j in range(rng.randint(1, 4)):
-        t = rng.choice(["num", "num", "str", "list", "dict", "date"])
-        val = {"num": lambda: rng.choice([rng.randint(0, 9), rng.randint(0, 9) + 0.5, True]),
+        t = rng.choice(["num", "num", "str", "list", "dict", "date", "tuplist"])
+        val = {"tuplist": lambda: [rng.randint(0, 5), [rng.randint(0, 5) for _ in range(rng.randint(0, 2))]],  # (k, [..])
+               "num": lambda: rng.choice([rng.randint(0, 9), rng.randint(0, 9) + 0.5, True]),
                "str": lambda: "s" * rng.randint(1, 5), "list": lambda: [rng.randint(0, 5) for _ in range(rng.randint(0, 3))],
                "dict": lambda: {"k": rng.randint(0, 9), "z": rng.randint(0, 3)},
                "date": lambda: "20%02d-0%d-1%d" % (rng.randint(0, 30), rng.randint(1, 9), rng.randint(0, 9))}[t]()
@@ -347,10 +348,13 @@ def ensure_alias(aliases, nodes, call, src):
 def read_expr(var, form):
     ref = {"attr": "a.", "pattr": "pk."}.get(form, "") + var["name"]
     return {"num": "int(%s * 2)" % ref, "str": "len(%s)" % ref, "list": "sum(%s)" % ref,
-            "dict": "(%s[\"k\"] + len(%s))" % (ref, ref), "date": "%s.year" % ref}[var["type"]]
+            "dict": "(%s[\"k\"] + len(%s))" % (ref, ref), "date": "%s.year" % ref,
+            "tuplist": "(%s[0] + sum(%s[1]) + len(%s[1]))" % (ref, ref, ref)}[var["type"]]
 
 
 def var_literal(var):
+    if var["type"] == "tuplist":
+        return repr((var["value"][0], list(var["value"][1])))
     if var["type"] == "date":
         y, mo, d = var["value"].split("-")
         return "datetime.date(%d, %d, %d)" % (int(y), int(mo), int(d))
@@ -588,6 +592,7 @@ def cell_statements(old, new, desc, twin=False):
         v = new["vars"][desc["var"]]
         if desc["kind"] == "var_mutate":
             src = ("%s.append(%r)\n" % (v["name"], v["value"][-1])) if v["type"] == "list" else (
+                ("%s[1].append(%r)\n" % (v["name"], v["value"][1][-1])) if v["type"] == "tuplist" else
                 "%s[\"k\"] = %r\n" % (v["name"], v["value"]["k"]))
         else:
             src = "%s = %s\n" % (v["name"], var_literal(v))
@@ -828,7 +833,7 @@ def apply_edit(rng, prog, kind=None, force_var=None):
             order = [force_var]
         for j in order:
             v = p["vars"][j]
-            if kind == "var_mutate" and v["type"] not in ("list", "dict"):
+            if kind == "var_mutate" and v["type"] not in ("list", "dict", "tuplist"):
                 continue
             if v["type"] == "num":
                 v["value"] = rng.choice([x for x in [1, 2, 3, 4.5, 7, True, 0, 2.5, 8] if x != v["value"] or type(x) is not type(v["value"])])
@@ -840,6 +845,9 @@ def apply_edit(rng, prog, kind=None, force_var=None):
             elif v["type"] == "dict":
                 v["value"] = dict(v["value"], k=v["value"]["k"] + rng.randint(1, 4))
                 desc["mutation"] = "setitem"
+            elif v["type"] == "tuplist":  # a tuple holding a list: the list is extended (in place when mutated)
+                v["value"] = [v["value"][0] + (0 if kind == "var_mutate" else 1), list(v["value"][1]) + [rng.randint(1, 5)]]
+                desc["mutation"] = "append to the list inside the tuple"
             else:
                 v["value"] = "20%02d-01-11" % ((int(v["value"][2:4]) + 1) % 60)
             return done(None, var=j, changed=[])
